@@ -716,4 +716,128 @@ theorem rule_sequence (E : Env) (k : OK ρ) (n fuel : Nat) (rs : List ρ) (s : S
       generalize loopN _ _ fuel _ s0 = X at key ⊢
       cases hc : Op.seqLoop k rs s0 pos <;> rcases X with e | (⟨L', s'⟩ | ⟨L', s'⟩ | x) <;> simp_all
 
+/-! #### RULE_LENPREFIX -/
+
+/-- one repetition: locals number 2 = i, number 1 = nrep, pointer 1 = next_text, capture state 0 = cs -/
+def LenBody (k : OK ρ) (b : ρ) (cs : CapState) (body : Loc → St → Except Err Out) : Prop :=
+  ∀ (L : Loc) (s : St) (i pos : Nat), L.num 2 = i → L.ptr 1 = some pos → L.cs 0 = cs →
+    match down1 s with
+    | .error e => body L s = .error e
+    | .ok s0 =>
+      match k b s0 pos with
+      | .error e => body L s = .error e
+      | .ok (none, s1) => body L s = .ok (.ret (none, capLoad (up1 s1) cs))
+      | .ok (some p, s1) => ∃ L1, body L s = .ok (.cont L1 (up1 s1)) ∧ L1.num 2 = i + 1 ∧ L1.ptr 1 = some p ∧ L1.cs 0 = cs ∧
+          L1.num 1 = L.num 1
+
+theorem len_loop (k : OK ρ) (b : ρ) (cs : CapState) (nrep : Nat) (cond : Loc → St → Bool) (body rest : Loc → St → Except Err Out)
+    (hcond : ∀ L s, cond L s = decide (L.num 2 < L.num 1)) (hbody : LenBody k b cs body)
+    (hrest : ∀ L s, rest L s = .ok (.ret (L.ptr 1, s))) :
+    ∀ (m i f : Nat) (L : Loc) (s : St) (pos : Nat), i + m = nrep → m + 1 ≤ f → L.num 2 = i → L.num 1 = nrep → L.ptr 1 = some pos →
+      L.cs 0 = cs →
+      (match loopN cond body f L s with
+        | .error e => (Except.error e : Except Err Out)
+        | .ok (.cont L' s') => rest L' s'
+        | .ok (.brk _ _) => .error .badop
+        | .ok (.ret x) => .ok (.ret x)) =
+      (match Op.lenLoop k b cs m s pos with | .error e => .error e | .ok x => .ok (.ret x)) := by
+  intro m
+  induction m with
+  | zero =>
+    intro i f L s pos hi hf h2 h1 hp hc
+    obtain ⟨f', rfl⟩ : ∃ f', f = f' + 1 := ⟨f - 1, by omega⟩
+    have hlt : ¬ L.num 2 < L.num 1 := by omega
+    simp [loopN, hcond, hlt, hrest, hp, Op.lenLoop]
+  | succ m ih =>
+    intro i f L s pos hi hf h2 h1 hp hc
+    obtain ⟨f', rfl⟩ : ∃ f', f = f' + 1 := ⟨f - 1, by omega⟩
+    have hlt : L.num 2 < L.num 1 := by omega
+    have hb := hbody L s i pos h2 hp hc
+    simp only [loopN, hcond, hlt, decide_true, if_true, Op.lenLoop]
+    cases hd : down1 s with
+    | error e => simp only [hd] at hb; simp [hb, bind, Except.bind]
+    | ok s0 =>
+      simp only [hd] at hb
+      cases hk : k b s0 pos with
+      | error e => simp only [hk] at hb; simp [hb, hk, bind, Except.bind]
+      | ok x =>
+        obtain ⟨res, s1⟩ := x
+        cases res with
+        | none => simp only [hk] at hb; simp [hb, hk, bind, Except.bind]
+        | some p =>
+          simp only [hk] at hb
+          obtain ⟨L1, g0, g2, gp, gc, g1⟩ := hb
+          have := ih (i + 1) f' L1 (up1 s1) p (by omega) (by omega) g2 (g1.trans h1) gp gc
+          simp only [g0, hk, bind, Except.bind] at this ⊢
+          exact this
+
+theorem len_body (E : Env) (k : OK ρ) (a b : ρ) (cs : CapState) (fuel : Nat) :
+    LenBody k b cs (fun L s => execL E k (ops [(1, a), (2, b)] []) fuel Gen.PegSkel.RULE_LENPREFIX_body0 L s) := by
+  intro L s i pos h2 hp hc
+  simp only [Gen.PegSkel.RULE_LENPREFIX_body0, execL, execStmt, evalCond, evalNE, ops]
+  cases hd : down1 s with
+  | error e => simp [hd, bind, Except.bind]
+  | ok s0 =>
+    simp only [hd, bind, Except.bind]
+    cases hk : k b s0 pos with
+    | error e => simp [hk, hp, opsRule]
+    | ok x => obtain ⟨res, s1⟩ := x; cases res <;> simp [hk, hp, hc, h2, opsRule, upd]
+
+/-- RULE_LENPREFIX: the length pattern runs in NORMAL mode, the mode is restored before every return (hence `lenprefixLeak =
+    false`), its first capture must be an int32-valued number, its captures are dropped, then that many repetitions, a failing one
+    rolling back to the state on entry.  IR fuel: one unit per repetition (a count passes `janet_checkint`) plus one. -/
+theorem rule_lenprefix (E : Env) (hE : E.lenprefixLeak = false) (k : OK ρ) (n fuel : Nat) (a b : ρ) (s : St) (pos : Nat)
+    (hf : 2147483648 ≤ fuel) :
+    runL E k (ops [(1, a), (2, b)] []) fuel Gen.PegSkel.RULE_LENPREFIX s pos = Op.step E k n (.lenprefix a b) s pos := by
+  simp only [runL, Gen.PegSkel.RULE_LENPREFIX, execL, execStmt, evalNE, Loc.init, Op.step, hE]
+  cases hd : down1 { s with acc := false } with
+  | error e => simp [hd, bind, Except.bind]
+  | ok s0 =>
+    simp only [hd, bind, Except.bind]
+    cases hk : k a s0 pos with
+    | error e => simp [ops, opsRule, hk]
+    | ok x =>
+      obtain ⟨res, s1⟩ := x
+      cases res with
+      | none => simp [ops, opsRule, hk, evalCond, upd]
+      | some p =>
+        simp only [ops, opsRule, hk]
+        simp only [List.find?, beq_self_eq_true, Option.map_some, upd, if_true, evalCond]
+        have hcs : capSave { s with acc := false } = capSave s := rfl
+        simp only [hk, hcs, Option.isNone_some, Bool.false_eq_true, if_false, if_true, Nat.zero_ne_one,
+          (by decide : (1 : Nat) = 0 ↔ False), (by decide : (2 : Nat) = 0 ↔ False), (by decide : (2 : Nat) = 1 ↔ False),
+          (by decide : (0 : Nat) = 1 ↔ False), (by decide : (0 : Nat) = 2 ↔ False), (by decide : (1 : Nat) = 2 ↔ False)]
+        have hupd1 : upd (fun x => if x = 0 then some pos else none) 1 (some p) 1 = some p := by simp [upd]
+        have hupd0 : (upd (fun _ => ({ cap := 0, tcap := 0, scratch := 0 } : CapState)) 0 (capSave s) 0) = capSave s := by
+          simp [upd]
+        simp only [hupd1, hupd0, reduceCtorEq, if_false]
+        have hhead : ((up1 s1).caps.drop (capSave s).cap).head? = (up1 s1).caps[(capSave s).cap]? := by simp
+        cases hh : ((up1 s1).caps.drop (capSave s).cap).head? with
+        | none =>
+          have hidx : (up1 s1).caps[(capSave s).cap]? = none := by rw [← hhead, hh]
+          simp [hidx]
+        | some v =>
+          have hidx : (up1 s1).caps[(capSave s).cap]? = some v := by rw [← hhead, hh]
+          cases v with
+          | int nrep =>
+            by_cases hci : checkint nrep = true
+            · have hfuel : nrep.toNat + 1 ≤ fuel := by
+                simp only [checkint, decide_eq_true_eq] at hci; omega
+              simp only [hidx, hci, Bool.not_true, Bool.false_eq_true, if_false, if_true]
+              have key := len_loop k b (capSave s) nrep.toNat (fun L s => decide (L.num 2 < L.num 1))
+                (fun L s => execL E k ⟨opsRule [(1, a), (2, b)], opsWord [], fun _ => .nil⟩ fuel Gen.PegSkel.RULE_LENPREFIX_body0 L s)
+                (fun L s => execL E k ⟨opsRule [(1, a), (2, b)], opsWord [], fun _ => .nil⟩ fuel Gen.PegSkel.RULE_LENPREFIX_rest0 L s)
+                (fun _ _ => rfl) (len_body E k a b (capSave s) fuel)
+                (fun L s => by simp [Gen.PegSkel.RULE_LENPREFIX_rest0, execL])
+                nrep.toNat 0 fuel
+              generalize hL0 : Loc.mk _ _ _ _ _ = L0
+              generalize hS0 : capLoad _ _ = S0
+              have hk2 := key L0 S0 p (by omega) hfuel (by rw [← hL0]; simp [upd]) (by rw [← hL0]; simp [upd])
+                (by rw [← hL0]; simp [upd]) (by rw [← hL0]; simp [upd])
+              generalize loopN _ _ fuel L0 S0 = X at hk2 ⊢
+              cases hc : Op.lenLoop k b (capSave s) nrep.toNat S0 p <;> rcases X with e | (⟨L', s'⟩ | ⟨L', s'⟩ | x) <;>
+                simp_all
+            · simp [hidx, hci]
+          | _ => simp [hidx]
+
 end JanetModel.Peg.TieSkel
